@@ -153,12 +153,25 @@ func (w *W) runPath(s *State) (forks []*State) {
 				}
 				npc := append(append([]*Term(nil), s.pc...), c)
 				w.solver.where = where(s)
-				v := w.solver.Check(npc, false, QFeas)
+				// model-based shortcut: if the last model of this state still satisfies the path
+				// condition and this literal, the branch is feasible without asking the solver
+				var v Result
+				if s.modelSatisfies(npc) {
+					v = Result{Status: "sat", Model: s.model, Backend: "model"}
+					atomic.AddInt64(&stats.ModelHits, 1)
+				} else {
+					v = w.solver.Check(npc, true, QFeas)
+				}
 				if v.Status == "unsat" {
 					continue
 				}
 				ns := s.clone()
 				ns.pc = npc
+				if v.Status == "sat" && v.Model != nil {
+					ns.model, ns.modelOK = v.Model, len(npc)
+				} else {
+					ns.model, ns.modelOK = nil, 0
+				}
 				if v.Status == "unknown" {
 					ns.feasUnknown++
 					atomic.AddInt64(&e.feasUnknown, 1)
@@ -236,6 +249,25 @@ func (w *W) runPath(s *State) (forks []*State) {
 			return nil
 		}
 	}
+}
+
+// modelSatisfies reports whether the state's remembered model satisfies every conjunct of pc
+// (conjuncts up to modelOK are known to hold; the rest are evaluated, unknown = no).
+func (s *State) modelSatisfies(pc []*Term) bool {
+	if s.model == nil {
+		return false
+	}
+	memo := map[*Term]*Term{}
+	for i := s.modelOK; i < len(pc); i++ {
+		r := evalTerm(pc[i], s.model, memo)
+		if r == nil {
+			return false
+		}
+		if v, ok := r.BoolVal(); !ok || !v {
+			return false
+		}
+	}
+	return true
 }
 
 var maxPathInstrs = 5_000_000
